@@ -60,7 +60,7 @@ class World(object):
         # state is its own
         if variant == 'tcp-default':
             self.neighbour = ModbusTcpClientProtocol()
-        elif variant == 'tcp':
+        elif variant in ('tcp', 'tcp-class'):
             self.neighbour = ModbusClientProtocol()
         else:
             self.neighbour = ModbusSerClientProtocol()
@@ -75,6 +75,8 @@ class World(object):
             self.escaped.append((('init',), e))
         if variant == 'tcp':
             self.p = ModbusClientProtocol(framer=ModbusSocketFramer(ClientDecoder()))
+        elif variant == 'tcp-class':
+            self.p = ModbusClientProtocol(framer=ModbusSocketFramer)       # the framer given as a class, as the constructor allows
         elif variant == 'tcp-default':
             self.p = ModbusTcpClientProtocol()          # the class the Twisted TCP factory path instantiates, default framer
         else:
@@ -145,8 +147,9 @@ class World(object):
             # the first bytes of a frame arrive in one read, the rest in a later one
             frame = self.reply(ev[1]) if kind == 'rh' else self.unsolicited()
             self.partial_used = self.partial_used or kind == 'uh'
-            self.partial = (kind, ev[1] if kind == 'rh' else None, frame[5:])
-            self.p.dataReceived(frame[:5])
+            cut = 5 if self.variant != 'rtu' else 2          # RTU: right after unit id and function code
+            self.partial = (kind, ev[1] if kind == 'rh' else None, frame[cut:])
+            self.p.dataReceived(frame[:cut])
         elif kind == 'tail':
             k2, i, rest = self.partial
             self.partial = None
@@ -214,6 +217,7 @@ def menu(w, max_out, max_req):
             ev.append(('unsol',))
         else:
             if out:
+                ev.append(('rh', out[0]))                  # the reply arrives in two reads
                 ev.append(('rep', out[0]))                 # a serial line answers in order
                 if len(out) > 1:
                     ev.append(('rep2', out[0], out[1]))
@@ -300,6 +304,7 @@ def run(tier, seed):
         shards.append(('tcp', tid0, (1, 2), max_out, depth))
         shards.append(('rtu', tid0, (1,), max_out, depth))
     shards.append(('tcp-default', 0, (1,), max_out, depth))
+    shards.append(('tcp-class', 0, (1,), max_out, depth))
     shards.append(('tcp+kept', 0, (1, 2), 3, 7 if tier == 'quick' else 9))      # the application keeps a request object and submits it twice
     shards.append(('rtu+kept', 0, (1,), 3, 7 if tier == 'quick' else 9))
     acc = par.run_shards(shard, shards)
